@@ -207,6 +207,21 @@ class ProgGen:
             args[i] = rng.choice([Name("x"), b"str", [F(1)], None])
         return Op(name, args, bad=True, note="illtyped")
 
+    def colour(self) -> None:
+        """g rg k G RG K, or a device colour space selected by cs/CS followed by sc/scn/SC/SCN (q and Q may come
+        between the two: the colour space is part of the graphics state)."""
+        rng = self.rng
+        if rng.random() < 0.6:
+            self.emit(rng.choice(["g", "rg", "k", "G", "RG", "K"]))
+            return
+        fill = rng.random() < 0.6
+        space, ncomp = rng.choice([("DeviceGray", 1), ("DeviceRGB", 3), ("DeviceCMYK", 4)])
+        self.ops.append(Op("cs" if fill else "CS", [Name(space)]))
+        if rng.random() < 0.3:
+            self.ops.append(Op("q"))
+            self.ops.append(Op("Q"))
+        self.ops.append(Op(rng.choice(["sc", "scn"] if fill else ["SC", "SCN"]), [dy(rng, 0, 1) for _ in range(ncomp)]))
+
     def emit(self, name: str) -> None:
         if self.rng.random() < self.p_bad and name in NARGS:
             self.ops.append(self.bad(name))
@@ -230,7 +245,7 @@ class ProgGen:
             elif r < 0.92:
                 self.emit(rng.choice(["Tj", "Tj", "TJ", "TJ", "'", '"']))
             else:
-                self.emit(rng.choice(["g", "rg", "k", "G", "RG", "K"]))
+                self.colour()
         self.ops.append(Op("ET"))
 
     def build(self, nseg: int, depth_q: int = 0, first_tf: bool = True) -> List[Op]:
@@ -251,7 +266,7 @@ class ProgGen:
             elif r < 0.75:
                 self.emit("cm")
             elif r < 0.83:
-                self.emit(rng.choice(["g", "rg", "k", "G", "RG", "K"]))
+                self.colour()
             elif r < 0.9:
                 self.emit(rng.choice(TEXT_STATE_OPS))
             elif self.forms:
@@ -464,6 +479,12 @@ def compare(case: Dict[str, Any], rec: Any = None) -> List[Tuple[str, str]]:
         if not colour_matches(c.graphicstate.ncolor, g.fill):
             fails.append(("glyph_fill_colour", "%s: ncolor %r expected %r" % (where, c.graphicstate.ncolor, g.fill)))
             break
+        if g.fill_cs is not UNKNOWN and g.fill is not NEVER_SET:
+            if rec is not None:
+                rec.count("glyph_fill_spaces_asserted")
+            if getattr(c.ncs, "name", None) != g.fill_cs:
+                fails.append(("glyph_fill_colour_space", "%s: fill colour space %r expected %r" % (where, getattr(c.ncs, "name", None), g.fill_cs)))
+                break
         if g.pen_known:
             if rec is not None:
                 rec.count("glyph_matrices_asserted")
